@@ -9,7 +9,10 @@ package cfggen
 
 import (
 	"fmt"
+	"math"
+	"math/big"
 	"sort"
+	"strings"
 
 	"Havoc/pkg/profile/yaotl/hcldec"
 
@@ -24,7 +27,8 @@ type Type struct {
 	K   string  `json:"k"`
 	E   *Type   `json:"e,omitempty"`   // element type of list/set/map
 	F   []Field `json:"f,omitempty"`   // object attributes / tuple elements (N empty)
-	Int bool    `json:"int,omitempty"` // number: only integers are generated (Go side: int64, else float64)
+	Int  bool   `json:"int,omitempty"`  // number: only int64 integers are generated (Go side: int64)
+	Uint bool   `json:"uint,omitempty"` // number: only uint64 integers are generated (Go side: uint64); neither: any number (Go side: float64)
 }
 
 type Field struct {
@@ -212,7 +216,7 @@ func Natural(v Val) cty.Value {
 	case "s":
 		return cty.StringVal(v.S)
 	case "n":
-		return cty.MustParseNumberVal(v.S)
+		return NumberOf(v.S)
 	case "b":
 		return cty.BoolVal(v.B)
 	case "l":
@@ -579,4 +583,74 @@ func SortedKeys(m []KV) []string {
 	}
 	sort.Strings(ks)
 	return ks
+}
+
+// NumberOf builds the number a literal text denotes: decimal text, or "a/b" for
+// the quotient of two integers at cty's precision (a value with no short decimal
+// spelling; only used where values are handed over as cty values, never rendered
+// by this package's own renderers).
+func NumberOf(s string) cty.Value {
+	if i := strings.Index(s, "/"); i > 0 {
+		return cty.MustParseNumberVal(s[:i]).Divide(cty.MustParseNumberVal(s[i+1:]))
+	}
+	return cty.MustParseNumberVal(s)
+}
+
+var (
+	bigMaxInt64  = new(big.Float).SetInt64(math.MaxInt64)
+	bigMinInt64  = new(big.Float).SetInt64(math.MinInt64)
+	bigMaxUint64 = new(big.Float).SetUint64(math.MaxUint64)
+)
+
+// NumClass names the class of a number literal for the label histogram.
+func NumClass(s string) string {
+	if s == "-0" {
+		return "negative-zero"
+	}
+	bf := NumberOf(s).AsBigFloat()
+	abs := new(big.Float).Abs(bf)
+	switch {
+	case !bf.IsInt():
+		if strings.Contains(s, "/") {
+			return "fraction-without-finite-decimal"
+		}
+		if abs.Cmp(big.NewFloat(1e-3)) < 0 {
+			return "tiny-fraction"
+		}
+		return "fraction"
+	case bf.Cmp(bigMaxInt64) == 0 || bf.Cmp(bigMinInt64) == 0:
+		return "int64-boundary"
+	case new(big.Float).Sub(bigMaxInt64, bf).Cmp(big.NewFloat(1)) == 0 || new(big.Float).Sub(bf, bigMinInt64).Cmp(big.NewFloat(1)) == 0:
+		return "int64-boundary-inside"
+	case bf.Cmp(bigMaxInt64) > 0 && bf.Cmp(bigMaxUint64) <= 0:
+		return "uint64-above-int64"
+	case bf.Cmp(bigMaxUint64) > 0 && abs.Cmp(big.NewFloat(1e40)) > 0:
+		return "huge-whole"
+	case bf.Cmp(bigMaxUint64) > 0:
+		return "whole-above-uint64"
+	case bf.Cmp(bigMinInt64) < 0:
+		return "whole-below-int64"
+	}
+	return "int64-range"
+}
+
+// NumClasses collects "num:<class>" (and "num-nested:<class>" for numbers inside
+// lists/objects) for every number leaf of v.
+func NumClasses(v Val, nested bool, out map[string]bool) {
+	switch v.K {
+	case "n":
+		if nested {
+			out["num-nested:"+NumClass(v.S)] = true
+		} else {
+			out["num:"+NumClass(v.S)] = true
+		}
+	case "l":
+		for _, e := range v.L {
+			NumClasses(e, true, out)
+		}
+	case "m":
+		for _, kv := range v.M {
+			NumClasses(kv.V, true, out)
+		}
+	}
 }
